@@ -13,39 +13,43 @@
    The correspondence check ties Compile.v to compiler.go by comparing instruction lists on every
    sampled program, and VM.v/Den.v to the implementation by comparing outputs. *)
 From Coq Require Import List NArith ZArith.
-From Verif Require Import c01vm.Syntax c01vm.Code c01vm.VM c01vm.Den c01vm.Compile c01vm.Natives c01vm.Lemmas c01vm.Correct.
+From Verif Require Import c01vm.Syntax c01vm.Code c01vm.VM c01vm.Den c01vm.Compile c01vm.Natives c01vm.Lemmas c01vm.Correct c01vm.Peep.
 Import ListNotations.
 
 (* For EVERY program q of F that compiles (all variables and labels bound), EVERY input v and EVERY
-   instance of the natives there is a fuel with which the VM, started by env.execute on the code emitted
-   for q (before the final peephole pass), produces exactly the outputs of the denotation, in order,
-   followed by the same ending (end of outputs / the same first uncaught error) -- in particular it is
-   never Stuck (no Go panic) and a closed program never ends with an uncaught break. *)
+   instance of the natives there is a fuel with which the VM, started by env.execute on the code finally
+   emitted for q (opscope, the code of q, opret, after the peephole pass optimizeCodeOps), produces exactly
+   the outputs of the denotation, in order, followed by the same ending (end of outputs / the same first
+   uncaught error) -- in particular it is never Stuck (no Go panic) and a closed program never ends with an
+   uncaught break.  [run_is r o]: o = (outputs of r, End | Error e) according to the ending of r. *)
 Theorem C01vm_compile_correct : forall (nt : natives) (q : query) (code : list instr),
+  compile q = Some code ->
+  forall v : jv, exists fuel : nat, run_is (den nt q [] v) (run nt code fuel (init v)).
+Proof. exact compile_correct. Qed.
+Print Assumptions C01vm_compile_correct.
+
+(* peephole_sound (also C04): for ANY code c whose last instruction is opret and in which no opjumpifnot
+   targets the next instruction (the two facts hold for every code emitted by comp: Peep.comp_jin), running
+   the rewritten code gives the same observation as running c, whenever the latter neither gets stuck nor runs
+   out of fuel.  The side condition the optimiser checks itself (the second instruction of a fused pair is not
+   a jump/fork target) is part of the pass. *)
+Theorem C01vm_peephole_sound : forall (nt : natives) (c : list instr),
+  (forall p j, nth_error c p = Some (Ijumpifnot j) -> j <> S p) ->
+  nth_error c (length c - 1) = Some Iret ->
+  forall v f o, run nt c f (init v) = o -> snd o <> OutOfFuel -> snd o <> IsStuck ->
+  exists f', run nt (peephole c) f' (init v) = o.
+Proof. exact peephole_fold_sound. Qed.
+Print Assumptions C01vm_peephole_sound.
+
+(* the same for the code before the peephole pass, and the per-construct statement behind both: for every
+   query in every context (any code position, any stack below the input, any pending forks, any variable
+   store satisfying the environment) the code segment implements the denotation (Lemmas.Impl) *)
+Corollary C01vm_compile_raw_correct : forall (nt : natives) (q : query) (code : list instr),
   compile_raw q = Some code ->
   forall v : jv, exists fuel : nat, run_is (den nt q [] v) (run nt code fuel (init v)).
 Proof. exact compile_raw_correct. Qed.
-Print Assumptions C01vm_compile_correct.
-
-(* The per-construct statement behind it, for every query in every context (any code position, any
-   stack below the input, any pending forks, any variable store satisfying the environment): *)
 Corollary C01vm_segment_correct : forall nt code rpc q, Impl nt code rpc q.
 Proof. exact impl_all. Qed.
-
-(* STATED, NOT PROVED HERE (also C04's peephole_sound): the final pass optimizeCodeOps (Compile.peephole:
-   push|dup|load ; pop => nop ; nop,  push|dup|load ; const k => nop ; push k  unless the second
-   instruction is a jump/fork target, jump-to-next => nop, jump threading) preserves the observation.
-   Until it is proved the correspondence check runs the VM model on BOTH compile_raw q and compile q
-   for every sampled case and compares both with den. *)
-Definition C01vm_peephole_sound : Prop :=
-  forall (nt : natives) (q : query) (c : list instr), compile_raw q = Some c ->
-  forall v o, (exists fuel, run nt c fuel (init v) = o /\ snd o <> OutOfFuel) ->
-              (exists fuel, run nt (peephole c) fuel (init v) = o).
-
-(* the full statement for the code the real compiler emits *)
-Definition C01vm_full : Prop :=
-  forall (nt : natives) (q : query) (code : list instr), compile q = Some code ->
-  forall v : jv, exists fuel : nat, run_is (den nt q [] v) (run nt code fuel (init v)).
 
 (* non-vacuity: a program of F with generators, a variable, a caught and an uncaught error:
    [.[] as $x | try ($x | error) catch (., 1)] , error   on [3,4]  gives  [3,1,4,1] then error([3,4]) *)
@@ -54,7 +58,7 @@ Example C01vm_nonvacuous :
                      (QTry (QPipe (QVar 0%N) (QCall0 F0Error)) (Some (QComma QId (QConst (VNum 1)))))))
                   (QCall0 F0Error) in
   let v := VArr [VNum 3; VNum 4] in
-  option_map (fun c => run cnat c 300 (init v)) (compile_raw q)
+  option_map (fun c => run cnat c 300 (init v)) (compile q)
     = Some ([VArr [VNum 3; VNum 1; VNum 4; VNum 1]], Error (VE (EV v))) /\
   den cnat q [] v = ([VArr [VNum 3; VNum 1; VNum 4; VNum 1]], Some (XErr (EVal v))).
 Proof. vm_compute. split; reflexivity. Qed.
